@@ -98,6 +98,16 @@ def call_tr(m, arg, direction, topt=None, **kw):
     o.update(topt or {})
     return abel.Transform(arg, method=m, direction=direction, transform_options=o, **kw).transform
 
+def outcome_all(fs, Xin):
+    """A cell that stands for 'any value outside the documented set' is run
+    with several such values (near-misses of the documented names included);
+    the first one that does not raise decides the outcome."""
+    for val, f in fs:
+        o = outcome(f, Xin)
+        if not o.startswith('raise'):
+            return o + '@' + repr(val)
+    return o
+
 def outcome(f, Xin):
     fresh()
     try:
@@ -112,6 +122,22 @@ SHAPES = ['OneD', 'TwoRows', 'OneCol', 'TwoCols', 'NonSquare', 'EvenSize']
 OPTS = ['BadMethod', 'BadOrigin', 'BadCrop', 'BadSymMethod', 'NoQuadrants',
         'DaunRegString', 'DaunRegTuple', 'DaunDegree', 'DaunNonneg',
         'RbasexReg', 'RbasexRegTuple', 'RbasexOut', 'RbasexRmax']
+BAD_VALUES = dict(
+    BadMethod=['foo', 'Basex', 'basex ', 'three_points', 'hansen_law', 'onion', 'two-point', 'rbasex2', 'direct_', ''],
+    BadOrigin=['foo', 'center', 'COM', 'com ', 'convolve', 'gauss', 'image-center', 'slices', 'None', ''],
+    BadCrop=['foo', 'maintain', 'valid', 'maintain-size', 'Valid_region', 'maintain_size ', 'maintain_datas', ''],
+    BadSymMethod=['foo', 'Average', 'avg', 'fourier ', 'fft', 'averages', ''],
+    DaunRegString=['foo', 'nonnegative', 'Nonneg', 'non-neg', 'diff', 'L2', 'L2c', 'nonneg '],
+    DaunRegTuple=[('foo', 1.0), ('l2', 1.0), ('L2 ', 1.0), ('Diff', 1.0), ('L2C', 1.0), ('L22', 1.0), ('nonneg', 1.0), ('', 1.0)],
+    DaunDegree=[5, 4, -1],
+    RbasexReg=['foo', 'positive', 'Pos', 'nonneg', 'pos ', 'L2', 'SVD'],
+    RbasexRegTuple=[('foo', 1.0), ('l2', 1.0), ('svd', 0.5), ('L2c', 1.0), ('Diff', 1.0), ('pos', 1.0), ('SVD ', 0.5)],
+    RbasexOut=['foo', 'full_unique', 'fullunique', 'Same', 'folded', 'unfolded', 'full-uniq', 'same ', 'FULL', ''],
+    RbasexRmax=['foo', 'Hor', 'minimum', 'ALL', 'horizontal', 'Max', 'all ', ''],
+)
+OPT_ARG = dict(DaunRegString='reg', DaunRegTuple='reg', DaunDegree='degree', RbasexReg='reg', RbasexRegTuple='reg',
+               RbasexOut='out', RbasexRmax='rmax')
+
 OPT_KW = dict(DaunRegString="reg='foo'", DaunRegTuple="reg=('foo', 1.0)", DaunDegree="degree=5",
               DaunNonneg="reg='nonneg'", RbasexReg="reg='foo'", RbasexRegTuple="reg=('foo', 1.0)",
               RbasexOut="out='foo'", RbasexRmax="rmax='foo'")
@@ -148,12 +174,27 @@ def cell_expr(via, m, d, sh, o):
         base = 'IM' if m in FULL else 'HALF'
         arg = dict(Fine=base, OneCol='HALF[:, :1]', TwoCols='HALF[:, :2]',
                    NonSquare='IM[2:-2]', EvenSize='IM[:-1, :-1]')[sh]
+        if o in BAD_VALUES:
+            fs = ', '.join("(%r, lambda: call_fn(%r, %s, direction=%r, %s=%r))" % (v, m, arg, d, OPT_ARG[o], v)
+                           for v in BAD_VALUES[o])
+            return "outcome_all([%s], %s)" % (fs, arg)
         kw = (', ' + OPT_KW[o]) if o in OPT_KW else ''
         return "outcome(lambda: call_fn(%r, %s, direction=%r%s), %s)" % (m, arg, d, kw, arg)
     arg = dict(Fine='IM', OneD='IM[3]', TwoRows='IM[9:11]', OneCol='IM[:, 10:11]', TwoCols='IM[:, 9:12]',
                NonSquare='IM[2:-2]', EvenSize='IM[:-1, :-1]')[sh]
     if o == 'BadMethod':
-        return "outcome(lambda: abel.Transform(IM, method='foo', direction=%r).transform, IM)" % d
+        fs = ', '.join("(%r, lambda: abel.Transform(IM, method=%r, direction=%r).transform)" % (v, v, d)
+                       for v in BAD_VALUES[o])
+        return "outcome_all([%s], IM)" % fs
+    if o in ('BadOrigin', 'BadCrop', 'BadSymMethod'):
+        tmpl = dict(BadOrigin="origin=%r", BadCrop="origin=(10, 10), center_options=dict(crop=%r)",
+                    BadSymMethod="symmetrize_method=%r")[o]
+        fs = ', '.join("(%r, lambda: call_tr(%r, %s, %r, %s))" % (v, m, arg, d, tmpl % v) for v in BAD_VALUES[o])
+        return "outcome_all([%s], %s)" % (fs, arg)
+    if o in BAD_VALUES:
+        fs = ', '.join("(%r, lambda: call_tr(%r, %s, %r, topt={%r: %r}))" % (v, m, arg, d, OPT_ARG[o], v)
+                       for v in BAD_VALUES[o])
+        return "outcome_all([%s], %s)" % (fs, arg)
     kw = ''
     if o in OPT_KW:
         kw = ', topt=dict(%s)' % OPT_KW[o]
@@ -183,14 +224,16 @@ def cells():
                     out.append(('%s/%s/%s/%s/%s' % (via, m, d, sh, o), rq(via, m, d, sh, o),
                                 cell_expr(via, m, d, sh, o)))
     # image tools called directly with unknown names (must raise; search only)
+    def multi(vals, tmpl):
+        return "outcome_all([%s], IM)" % ', '.join("(%r, lambda: %s)" % (v, tmpl % v) for v in vals)
     out.append(('tools/center_image/inverse/Fine/BadOrigin', None,
-                "outcome(lambda: tcenter.center_image(IM, method='foo'), IM)"))
+                multi(BAD_VALUES['BadOrigin'], "tcenter.center_image(IM, method=%r)")))
     out.append(('tools/find_origin/inverse/Fine/BadOrigin', None,
-                "outcome(lambda: np.asarray(tcenter.find_origin(IM, method='foo')), IM)"))
+                multi(BAD_VALUES['BadOrigin'], "np.asarray(tcenter.find_origin(IM, method=%r))")))
     out.append(('tools/set_center/inverse/Fine/BadCrop', None,
-                "outcome(lambda: tcenter.set_center(IM, (10, 10), crop='foo'), IM)"))
+                multi(BAD_VALUES['BadCrop'], "tcenter.set_center(IM, (10, 10), crop=%r)")))
     out.append(('tools/get_image_quadrants/inverse/Fine/BadSymMethod', None,
-                "outcome(lambda: tsym.get_image_quadrants(IM, symmetrize_method='foo')[0], IM)"))
+                multi(BAD_VALUES['BadSymMethod'], "tsym.get_image_quadrants(IM, symmetrize_method=%r)[0]")))
     out.append(('tools/get_image_quadrants/inverse/Fine/NoQuadrants', None,
                 "outcome(lambda: tsym.get_image_quadrants(IM, use_quadrants=(False,)*4)[0], IM)"))
     return out
@@ -261,12 +304,12 @@ def run(ctx):
     k = -1
     for (cid, term, expr) in cs:
         o = res[cid]
-        oc = 'raise' if o.startswith('raise') else o
+        oc = 'raise' if o.startswith('raise') else o.split('@')[0]
         dist[oc] = dist.get(oc, 0) + 1
         want = expected(cid)
         # the property itself: raise, or perform exactly what was requested
         if oc not in want:
-            snippet = PRELUDE + '\no = %s\no = "raise" if o.startswith("raise") else o\nprint(%r, "->", o)\nsys.exit(0 if o in %r else 1)\n' % (expr, cid, sorted(want))
+            snippet = PRELUDE + '\no = %s\nprint(%r, "->", o)\no = "raise" if o.startswith("raise") else o.split("@")[0]\nsys.exit(0 if o in %r else 1)\n' % (expr, cid, sorted(want))
             hits.append(Hit('loud_or_honoured', 'C20:' + cid,
                             'request %s is answered with "%s"; the property allows only %s' % (cid, o, sorted(want)),
                             snippet, dict(cell=cid, observed=o, allowed=sorted(want))))
@@ -276,7 +319,7 @@ def run(ctx):
                 disagreements.append((cid, CODE.get(model[k]), o))
     ctx.cov.update(evaluations=len(cs), distinct_nontrivial=len(set(c[0] for c in cs)),
                    traces_validated_against_impl=len(cs) - len(disagreements),
-                   rule='one call per cell of the request grid (families: 10 methods x 3 directions x {function, Transform}; '
+                   rule='one call (for an option value outside its documented set: one call per candidate bad value, near-misses of the documented names included) per cell of the request grid (families: 10 methods x 3 directions x {function, Transform}; '
                         'shapes violating a stated requirement; option values outside their documented sets); every cell is distinct',
                    samples=[dict(cell=c[0], observed=res[c[0]]) for c in cs[:6]],
                    exhaustive=True, outcome_distribution=dist, correspondence_disagreements=len(disagreements))
